@@ -51,9 +51,17 @@ def variant_path(e):
 def enum_const_table(prog, fn, adt):
     """variant -> constant stored on that variant's arm (for `match x { A => c1, B => c2 }`)"""
     out = {}
-    names = {v["idx"]: v["name"] for v in prog.adts[adt]["variants"]}
+    EXTERNAL = {"core::cmp::Ordering": {-1: "Less", 0: "Equal", 1: "Greater"}}
+    if adt in prog.adts:
+        names = {v.get("discr", v["idx"]) if False else v["idx"]: v["name"] for v in prog.adts[adt]["variants"]}
+    else:
+        names = EXTERNAL[adt]
     for sb, place, targets, oth in kit.discr_switches(fn, adt):
         for vi, tb in targets.items():
             val, at = first_value_after(fn, tb)
             out[names[vi]] = val
+        rest = [n for i, n in names.items() if i not in targets]
+        if len(rest) == 1:
+            val, at = first_value_after(fn, oth)
+            out[rest[0]] = val
     return out
